@@ -128,6 +128,8 @@ func add(c *ctor) *ctor {
 		if c.deps[i].field == "" {
 			if c.deps[i].form == "FUnexported" {
 				c.deps[i].field = fmt.Sprintf("priv%d", i)
+			} else if c.deps[i].form == "FEmbedded" || c.deps[i].form == "FEmbeddedIgn" {
+				c.deps[i].field = fmt.Sprintf("E%d", i)
 			} else {
 				c.deps[i].field = fmt.Sprintf("D%d", i)
 			}
@@ -314,6 +316,11 @@ func main() {
 	}
 
 	// appended later (keeps the ids of everything above stable)
+	// In structs with embedded structs whose promoted exported fields are not parameters
+	sp(&ctor{name: "InEmb_K0", inStyle: true, deps: []dep{mkDep("K1", "FPlain"), {target: "K2", form: "FEmbedded"}, {target: "K3", form: "FEmbedded"}}, outs: simpleOut("K0"), hasErr: true})
+	sp(&ctor{name: "InEmb_S4", inStyle: true, deps: []dep{{target: "K0", form: "FEmbeddedIgn"}, mkDep("K1", "FOpt"), mkDep("K2", "FGroup")}, outs: simpleOut("S4")})
+	sp(&ctor{name: "InEmb_K2", inStyle: true, deps: []dep{mkDep("K0", "FPlain"), {target: "K1", form: "FEmbedded"}, {target: "K0", form: "FEmbeddedIgn"}}, outs: simpleOut("K2"), hasErr: true})
+	sp(&ctor{name: "InEmb_S5", inStyle: true, deps: []dep{{target: "S0", form: "FEmbedded"}}, outs: simpleOut("S5")})
 	// a field carrying both a name and a group tag (a descriptor cannot have both: the Add call must be rejected)
 	sp(&ctor{name: "OutNG_K0K1", resultObj: true, outs: []out{{typ: "K0", key: "k", group: "g"}, {typ: "K1"}}})
 	sp(&ctor{name: "OutNG_K1S0", resultObj: true, outs: []out{{typ: "K1"}, {typ: "S0", key: "k", group: "g"}}})
@@ -421,11 +428,41 @@ func writeCtors() {
 		var params, argExprs []string
 		if c.inStyle {
 			fmt.Fprintf(&b, "type in_%s struct {\n\tgodi.In\n", c.name)
+			// exported fields of embedded structs are promoted into the In struct but are not
+			// parameters: an unexported embedded struct and an embedded struct tagged inject:"-"
+			var embPriv, embIgn []dep
 			for _, d := range c.deps {
-				fmt.Fprintf(&b, "\t%s %s%s\n", d.field, d.goType(), d.tag())
+				switch d.form {
+				case "FEmbedded":
+					embPriv = append(embPriv, d)
+				case "FEmbeddedIgn":
+					embIgn = append(embIgn, d)
+				default:
+					fmt.Fprintf(&b, "\t%s %s%s\n", d.field, d.goType(), d.tag())
+				}
 				argExprs = append(argExprs, "in."+d.field)
 			}
+			if len(embPriv) > 0 {
+				fmt.Fprintf(&b, "\temb_%s\n", c.name)
+			}
+			if len(embIgn) > 0 {
+				fmt.Fprintf(&b, "\tEmb_%s `inject:\"-\"`\n", c.name)
+			}
 			b.WriteString("}\n\n")
+			if len(embPriv) > 0 {
+				fmt.Fprintf(&b, "type emb_%s struct {\n", c.name)
+				for _, d := range embPriv {
+					fmt.Fprintf(&b, "\t%s %s\n", d.field, d.goType())
+				}
+				b.WriteString("}\n\n")
+			}
+			if len(embIgn) > 0 {
+				fmt.Fprintf(&b, "type Emb_%s struct {\n", c.name)
+				for _, d := range embIgn {
+					fmt.Fprintf(&b, "\t%s %s\n", d.field, d.goType())
+				}
+				b.WriteString("}\n\n")
+			}
 			params = []string{"in in_" + c.name}
 		} else {
 			for i, d := range c.deps {
